@@ -115,12 +115,12 @@ class Ctx:
         self.harness_errors += other.harness_errors
         self.budget_exhausted |= other.budget_exhausted
         for k, v in other.extra.items():
-            if isinstance(v, (int, float)) and isinstance(self.extra.get(k), (int, float)):
+            if isinstance(v, bool):
+                self.extra[k] = bool(self.extra.get(k, True)) and v
+            elif isinstance(v, (int, float)) and isinstance(self.extra.get(k), (int, float)):
                 self.extra[k] += v
             elif isinstance(v, list) and isinstance(self.extra.get(k), list):
                 self.extra[k] += v
-            elif isinstance(v, bool):
-                self.extra[k] = bool(self.extra.get(k, True)) and v
             else:
                 self.extra.setdefault(k, v)
 
@@ -369,10 +369,11 @@ def shard_seed(seed, shard):
     return int.from_bytes(h[:4], "big")
 
 
-def run_shard(mod, tier, seed, shard, n, deadline, do_extra):
+def run_shard(mod, tier, seed, shard, n, deadline, do_extra, nshards=1):
     ctx = Ctx(mod.ID, tier, seed)
     ctx.deadline = deadline
     ctx.shard = shard
+    ctx.nshards = nshards
     if do_extra and hasattr(mod, "extra"):
         try:
             mod.extra(ctx, tier, shard)
@@ -385,7 +386,7 @@ def run_shard(mod, tier, seed, shard, n, deadline, do_extra):
 
 def run_all_shards(mod, tier, seed, shards, n, deadline):
     if shards <= 1:
-        return run_shard(mod, tier, seed, 0, n, deadline, True)
+        return run_shard(mod, tier, seed, 0, n, deadline, True, 1)
     tmp = tempfile.mkdtemp(prefix="vt_shards_", dir=os.path.join(ROOT, ".cache"))
     pids = []
     for s in range(shards):
@@ -393,7 +394,7 @@ def run_all_shards(mod, tier, seed, shards, n, deadline):
         if pid == 0:
             code = 0
             try:
-                ctx = run_shard(mod, tier, seed, s, n, deadline, True)
+                ctx = run_shard(mod, tier, seed, s, n, deadline, True, shards)
                 with open(os.path.join(tmp, f"{s}.pkl"), "wb") as f:
                     pickle.dump(ctx, f)
             except BaseException:
